@@ -35,7 +35,9 @@ Lemma nr_log e : is_recv e = false -> nr (log (P:=P) e).
 Proof. intros He w H. unfold NR, recvs, log in *. cbn. rewrite He. exact H. Qed.
 Lemma nr_pop : nr (@pop P). Proof. intros w H. unfold pop. destruct (w_script w); exact H. Qed.
 Lemma nr_call e : is_recv e = false -> nr (call (P:=P) e).
-Proof. intros He. unfold call. apply nr_bind; [apply nr_log, He|]. intros ?u; cbn beta. apply nr_bind; [apply nr_pop|]. intros [|x]; [apply nr_ret|apply nr_throw]. Qed.
+Proof. intros He. unfold call. apply nr_bind; [apply nr_log, He|]. intros ?u; cbn beta. apply nr_bind; [apply nr_pop|]. intros [|x|x]; [apply nr_ret|apply nr_throw|apply nr_ret]. Qed.
+Lemma nr_call_late e : is_recv e = false -> nr (call_late (P:=P) e).
+Proof. intros He. unfold call_late. apply nr_bind; [apply nr_log, He|]. intros ?u; cbn beta. apply nr_bind; [apply nr_pop|]. intros [|x|x]; [apply nr_ret|apply nr_throw|apply nr_ret]. Qed.
 Lemma nr_fresh_sid : nr (@fresh_sid P). Proof. intros w H. exact H. Qed.
 Lemma nr_fresh_wrapped raw : nr (@fresh_wrapped P raw). Proof. intros w H. exact H. Qed.
 Lemma nr_get_sock : nr (@get_sock P). Proof. intros w H. exact H. Qed.
@@ -52,15 +54,14 @@ Proof.
 Qed.
 Lemma nr_try_make j : nr (try_make P c j).
 Proof.
-  unfold try_make. apply nr_bind; [apply nr_pop|]. intros [|e].
-  - apply nr_bind; [apply nr_fresh_sid|]. intros sid. apply nr_bind; [apply nr_log; reflexivity|]. intros ?u; cbn beta.
-    apply nr_try.
-    + apply nr_bind; [destruct (c_nodelay c); [apply nr_call; reflexivity|apply nr_ret]|]. intros ?u; cbn beta.
-      destruct (c_tls c); [|apply nr_ret]. apply nr_bind; [apply nr_pop|]. intros [|e2].
-      * apply nr_bind; [apply nr_fresh_wrapped|]. intros w. apply nr_bind; [apply nr_log; reflexivity|]. intros ?u; cbn beta. apply nr_ret.
-      * apply nr_bind; [apply nr_log; reflexivity|]. intros ?u; cbn beta. apply nr_throw.
-    + intros e. apply nr_bind; [apply nr_call; reflexivity|]. intros ?u; cbn beta. apply nr_ret.
-  - apply nr_bind; [apply nr_log; reflexivity|]. intros ?u; cbn beta. destruct (exn_isa e Exception_); [apply nr_ret|apply nr_throw].
+  unfold try_make. apply nr_bind; [apply nr_pop|]. intros [|e|e].
+  2:{ apply nr_bind; [apply nr_log; reflexivity|]. intros ?u; cbn beta. destruct (exn_isa e Exception_); [apply nr_ret|apply nr_throw]. }
+  all: apply nr_bind; [apply nr_fresh_sid|]; intros sid; apply nr_bind; [apply nr_log; reflexivity|]; intros ?u; cbn beta;
+    apply nr_try; [|intros e0; apply nr_bind; [apply nr_call; reflexivity|]; intros ?u; cbn beta; apply nr_ret];
+    apply nr_bind; [destruct (c_nodelay c); [apply nr_call; reflexivity|apply nr_ret]|]; intros ?u; cbn beta;
+    (destruct (c_tls c); [|apply nr_ret]); apply nr_bind; [apply nr_pop|]; intros [|e2|e2];
+    [|apply nr_bind; [apply nr_log; reflexivity|]; intros ?u; cbn beta; apply nr_throw|];
+    (apply nr_bind; [apply nr_fresh_wrapped|]; intros w; apply nr_bind; [apply nr_log; reflexivity|]; intros ?u; cbn beta; apply nr_ret).
 Qed.
 Lemma nr_addr_loop : forall k j err, nr (addr_loop P c j k err).
 Proof.
@@ -74,9 +75,10 @@ Proof.
   - destruct (c_tcp c).
     + apply nr_bind; [apply nr_call; reflexivity|]. intros ?u; cbn beta. apply nr_bind; [apply nr_addr_loop|].
       intros [[sj|] [e|]]; try apply nr_throw; apply nr_ret.
-    + apply nr_bind; [apply nr_pop|]. intros [|e].
+    + apply nr_bind; [apply nr_pop|]. intros [|e|e].
       * apply nr_bind; [apply nr_fresh_sid|]. intros sid. apply nr_bind; [apply nr_log; reflexivity|]. intros ?u; cbn beta. apply nr_ret.
       * apply nr_bind; [apply nr_log; reflexivity|]. intros ?u; cbn beta. apply nr_throw.
+      * apply nr_bind; [apply nr_fresh_sid|]. intros sid. apply nr_bind; [apply nr_log; reflexivity|]. intros ?u; cbn beta. apply nr_ret.
   - intros [sid j]. apply nr_bind; [|intros ?u; apply nr_set_sock].
     apply nr_try.
     + apply nr_bind; [apply nr_call; reflexivity|]. intros ?u; cbn beta.
@@ -91,7 +93,7 @@ Proof. unfold ensure_connected. apply nr_bind; [apply nr_get_sock|]. intros [sid
 Lemma nr_send b : nr (send peer b).
 Proof.
   unfold send. apply nr_bind; [apply nr_get_sock|]. intros [sid|]; [|apply nr_throw].
-  apply nr_bind; [apply nr_call; reflexivity|]. intros ?u; apply nr_deliver.
+  apply nr_bind; [apply nr_call_late; reflexivity|]. intros late. apply nr_bind; [apply nr_deliver|]. intros ?u. destruct late; [apply nr_throw|apply nr_ret].
 Qed.
 
 (* the three exchange paths under noreply: connect if needed, send, return -- never a recv *)
